@@ -272,6 +272,22 @@ func verifCondBroadcast(c *sync.Cond) {
 }
 `
 
+const modulePath = "github.com/sarchlab/akita/v5"
+
+const exportFile = `package %s
+
+import (
+	"sync"
+
+	%s "%s"
+)
+
+// VerifWeaveHooks_%s sets the weave hooks of the internal package.
+func VerifWeaveHooks_%s(y func(string), l func(any, string, bool), u func(any, bool), cw, cb func(*sync.Cond)) {
+	%s.VerifYield, %s.VerifLock, %s.VerifUnlock, %s.VerifCondWait, %s.VerifCondBroadcast = y, l, u, cw, cb
+}
+`
+
 func main() {
 	out := flag.String("out", "", "output directory")
 	repo := flag.String("repo", "/repo", "repository root")
@@ -288,6 +304,10 @@ func main() {
 	yields := 0
 
 	for _, spec := range flag.Args() {
+		// dir:files[@exportdir] - exportdir names a (non-internal) parent package
+		// that gets a setter for the hook variables of an internal package
+		spec, exportDir, _ := strings.Cut(spec, "@")
+
 		dir, files, ok := strings.Cut(spec, ":")
 		if !ok {
 			fmt.Fprintf(os.Stderr, "weave: bad spec %q\n", spec)
@@ -335,6 +355,13 @@ func main() {
 		hook := filepath.Join(*out, strings.ReplaceAll(dir, "/", "__")+"__zz_verif_weave.go")
 		_ = os.WriteFile(hook, []byte(fmt.Sprintf(hookFile, pkgName)), 0o644)
 		overlay[filepath.Join(*repo, dir, "zz_verif_weave.go")] = hook
+
+		if exportDir != "" {
+			exp := filepath.Join(*out, strings.ReplaceAll(exportDir, "/", "__")+"__zz_verif_export_"+pkgName+".go")
+			src := fmt.Sprintf(exportFile, filepath.Base(exportDir), pkgName, modulePath+"/"+dir, pkgName, pkgName, pkgName, pkgName, pkgName, pkgName, pkgName)
+			_ = os.WriteFile(exp, []byte(src), 0o644)
+			overlay[filepath.Join(*repo, exportDir, "zz_verif_export_"+pkgName+".go")] = exp
+		}
 	}
 
 	b, _ := json.MarshalIndent(map[string]any{"Replace": overlay}, "", " ")
